@@ -160,9 +160,12 @@ func (ex *Exec) execBody(fn *ssa.Function, info *fnInfo, args []Value, env []Val
 		fr.regs[info.idx[fv]] = env[i]
 	}
 	fr.block = fn.Blocks[0]
+	savedCur := ex.cur
+	ex.cur = fr
 	for fr.block != nil {
 		ex.runFrame(fr)
 	}
+	ex.cur = savedCur
 	ex.depth--
 	if fr.result == nil && !fr.returned {
 		// recovered from a panic without a Recover block: zero results
@@ -260,6 +263,9 @@ func (ex *Exec) runFrame(fr *frame) {
 			ex.steps++
 			if ex.steps > ex.maxSteps {
 				panic(pathEnd{stBudget, fmt.Sprintf("instruction budget %d exhausted in %s", ex.maxSteps, fr.fn)})
+			}
+			if ex.steps&1023 == 0 {
+				ex.checkDeadline()
 			}
 			if ex.trace {
 				fmt.Printf("  [%s] %s\n", fr.fn.Name(), in)
@@ -448,8 +454,19 @@ func (ex *Exec) visit(fr *frame, instr ssa.Instruction) cont {
 		if !ex.branch(st.Sle(ln, cp)) {
 			ex.throwRuntime("makeslice: cap out of range")
 		}
-		cn := int64(ex.concretize(cp))
 		es := sizeof(et)
+		if _, isC := cp.ConstVal(); !isC && !ex.branch(st.Ule(cp, c64(4096))) {
+			// symbolic capacity beyond the enumeration cap: a virtual huge
+			// object (sparse), bounds are enforced through the slice header
+			if es > 0 && !ex.branch(st.Ule(cp, c64((1<<46)/es))) {
+				ex.throwRuntime("makeslice: cap out of range")
+			}
+			o := ex.newObject(1<<47, "make-huge:"+shortType(et))
+			o.elem = et
+			ex.set(fr, in, Slice{Ptr{o, zero64}, ln, cp})
+			break
+		}
+		cn := int64(ex.concretize(cp))
 		if cn*es > 1<<28 || cn < 0 {
 			ex.throwRuntime("makeslice: len out of range (too large)")
 		}
